@@ -432,6 +432,7 @@ type valWorld struct {
 	connActor map[int]string
 	finalConn map[string]int
 	remoteCB  []valEvent // remote-update callbacks: conn, pos, value
+	nFake     int
 	localCB   []valEvent
 
 	fail, failSig string
@@ -558,7 +559,11 @@ func runVal(t *testing.T, sci interface{}) *Outcome {
 			vw.chars = append(vw.chars, vc)
 			pp := pos
 			c.OnValueUpdateFromConn(func(conn net.Conn, ch *characteristic.Characteristic, nv, ov interface{}) {
-				vw.remoteCB = append(vw.remoteCB, valEvent{conn: core.ConnID(conn), pos: pp, value: canon(nv), seq: s.Seq()})
+				id := core.ConnID(conn)
+				if fc, ok := conn.(fakeConn); ok {
+					id = -100 - fc.n
+				}
+				vw.remoteCB = append(vw.remoteCB, valEvent{conn: id, pos: pp, value: canon(nv), seq: s.Seq()})
 			})
 			c.OnValueUpdate(func(ch *characteristic.Characteristic, nv, ov interface{}) {
 				vw.localCB = append(vw.localCB, valEvent{conn: -1, pos: pp, value: canon(nv), seq: s.Seq()})
@@ -797,14 +802,33 @@ func (vw *valWorld) appOp(name string, op ValOp) {
 			wr.conn = -2
 			wr.refused = !hasPerm(vc.perm, "pw")
 			before := canon(vc.c.Value)
-			ncb := len(vw.remoteCB) + len(vw.localCB)
-			vc.c.UpdateValueFromConnection(nv, fakeConn{})
+			vw.nFake++
+			fc := fakeConn{n: vw.nFake}
+			nlocal := len(vw.localCB)
+			vc.c.UpdateValueFromConnection(nv, fc)
 			if wr.refused && vw.on("C11") {
-				if canon(vc.c.Value) != before {
+				// other actors may write the same characteristic while this call is preempted:
+				// only effects attributable to this call count
+				alone := true
+				for _, o := range vw.writes {
+					if o != wr && o.pos == vc.pos && (o.ret == 0 || o.ret >= wr.inv) {
+						alone = false
+					}
+				}
+				if alone && canon(vc.c.Value) != before {
 					vw.violate("write-without-pw-changed-value", "UpdateValueFromConnection on %s (perms %v) changed the value %s -> %s", vc.name, vc.perm, before, canon(vc.c.Value))
 				}
-				if len(vw.remoteCB)+len(vw.localCB) != ncb {
-					vw.violate("write-without-pw-callback", "UpdateValueFromConnection on %s (perms %v) invoked a callback", vc.name, vc.perm)
+				for _, cb := range vw.remoteCB {
+					if cb.conn == -100-fc.n {
+						vw.violate("write-without-pw-callback", "UpdateValueFromConnection on %s (perms %v) invoked a callback", vc.name, vc.perm)
+					}
+				}
+				if alone {
+					for _, cb := range vw.localCB[nlocal:] {
+						if cb.pos == vc.pos {
+							vw.violate("write-without-pw-callback", "UpdateValueFromConnection on %s (perms %v) invoked a callback", vc.name, vc.perm)
+						}
+					}
 				}
 			}
 		} else {
@@ -853,7 +877,7 @@ type fakeAddr struct{}
 func (fakeAddr) Network() string { return "tcp" }
 func (fakeAddr) String() string  { return "10.9.9.9:1" }
 
-type fakeConn struct{}
+type fakeConn struct{ n int }
 
 func (fakeConn) Read(b []byte) (int, error)         { return 0, fmt.Errorf("fake") }
 func (fakeConn) Write(b []byte) (int, error)        { return len(b), nil }
